@@ -3,13 +3,33 @@
 R1  stale-flag discipline (T-ORDER): every normal path through `add` passes the
     point where `index_stale = True` is set for identified stores; in
     get_flight / sync / close every use of the index (reads of the index
-    variables, dataset sync/close, dropping the index group) is dominated by
-    the lazy `_reindex()`; `_reindex` clears the flag only after both index
-    variables were stored.
-R2  sorted-writer <-> bisect-reader agreement: both writers store the two
-    index variables from one `sorted(pairs, key=component)`; the variable the
-    reader bisects on is the sort component, and the reader confirms the hit
-    and bounds before using the parallel variable.
+    variables or of an attribute holding a copy of them, dataset sync/close,
+    dropping the index group) is dominated by the lazy `_reindex()`;
+    `_reindex` clears the flag only after both index variables were stored.
+R2  sorted-writer <-> bisect-reader agreement, decided on values, not on
+    spelling.  Writers: what is stored into the two index variables is traced
+    back (single-definition locals, tuple unpacking, conversions, calls of
+    resolved repository functions with their arguments bound) to two columns
+    of ONE ascending sort of (position, identifier) pairs — tuples or
+    NamedTuple/dataclass records from enumerate / zip / map / a generator;
+    `sorted(...)`, an in-place `.sort()`, `zip(*pairs)`, or the
+    argsort-permutation form — whose primary key is the column stored as
+    flight_id, that column being built from nothing but `flight_id`
+    variables; the other column is the enumeration position or is built
+    from nothing but `trajectory_index` variables.  Reader: the one
+    binary search (bisect_left, np.searchsorted / .searchsorted, side left)
+    runs over the flight_id index variable (read directly or through an
+    attribute that holds a copy) for the requested identifier; the value
+    returned through the index is `self[T[pos]]` with T the trajectory_index
+    variable of the same snapshot, on a path where the facts `pos in range`
+    and `A[pos] == identifier` hold (branch conditions by forward dataflow on
+    the CFG; any spelling of the tests, guard clauses or conditional
+    expressions).  A store without files answers from its cache: the element
+    of `self._trajectories` selected by equality of its flight_id with the
+    request (loop with early return, next(generator, None), filter, list
+    comprehension, dict comprehension + get), None when there is none; the
+    same scan on a store with files is accepted only as a short-cut whose
+    miss goes on to the index.
 R3  merged offsets: trajectory_index + index_offset, the offset advanced by
     len(store) after each input, iterating the caller's list unchanged.
 R4  all-or-none: `add` and `merge` refuse mixed identifier use.
@@ -17,11 +37,21 @@ R5  file-link typestate: `self._nc[<key>]` and `self.index_group.<attr>` are
     dereferenced only on paths that established that files are attached
     (CFG with certifying edges removed, propagated over self-calls from the
     public entry points); an in-memory store answers look-ups from its cache.
+R6  freshness of copies of the index: an attribute of the store that is given
+    a value built from the index variables and is read by the look-up is a
+    copy that nothing else keeps current.  It must be written (dropped or
+    renewed) on every normal path through every place where the index goes
+    stale (`index_stale = True`) or through every place where the index
+    variables are rewritten (dominance / post-dominance on the CFG, through
+    self-calls).  A refresh tested on `index_stale` in the reader does not
+    count: the lazy reindex (or a sync) has cleared the flag by then.
+    Zero-expected on today's code; positive control embedded.
 """
 
 from __future__ import annotations
 
 import ast
+import re
 
 from ..astutil import (MUTATING_METHODS, ancestors, call_name, calls_in, conjuncts, guards_of, kwarg, local_defs,
                        norm, single_def_value, stmt_of, stores_to, tuple_def_component, walk_no_nested)
@@ -77,7 +107,7 @@ def rule_stale(ctx, m):
                line=n.line, nontrivial=False)
 
     # users
-    copies = set(index_copies(ctx.prog, dict(m.cls('TrajectoryStore').methods)))
+    copies = set(lookup_copies(ctx.prog, dict(m.cls('TrajectoryStore').methods)))
     for fname, uses_pred in (('get_flight', 'read'), ('sync', 'sync'), ('close', 'close')):
         fi = m.func(f'TrajectoryStore.{fname}')
         g = CFG(fi.node)
@@ -144,8 +174,8 @@ def rule_stale(ctx, m):
     dom = g.dominators(edge_ok=_normal)
     clr = [n for n in g.nodes if n.kind == 'stmt' and isinstance(n.stmt, ast.Assign)
            and norm(n.stmt.targets[0]) == 'self.index_stale']
-    var_stores = [n for n in g.nodes if n.kind == 'stmt' and isinstance(n.stmt, ast.Assign)
-                  and 'index_group.variables[' in norm(n.stmt.targets[0])]
+    stored = {id(st) for lst in _index_writers(ctx.prog, ri, self_only=True).values() for st, _ in lst}
+    var_stores = [n for n in g.nodes if n.kind == 'stmt' and id(n.stmt) in stored]
     ctx.floor('C08-R1/_reindex', len(var_stores), 2, 'index variable stores in _reindex')
     for c in clr:
         ok = all(v.id in dom[c.id] for v in var_stores) and isinstance(c.stmt.value, ast.Constant) \
@@ -356,13 +386,16 @@ def variable_reads(r: Ref, seen: set | None = None) -> set[tuple[str, bool]]:
 
 
 def _component_expr(target: ast.expr, elt: ast.expr):
-    """index k such that `elt` is component k of the pair bound to `target`"""
+    """k such that `elt` is component k of the pair bound to `target` (an index, or a field name of a record)"""
     if isinstance(target, (ast.Tuple, ast.List)) and isinstance(elt, ast.Name):
         hits = [i for i, t in enumerate(target.elts) if isinstance(t, ast.Name) and t.id == elt.id]
         return hits[0] if len(hits) == 1 else None
     if isinstance(target, ast.Name) and isinstance(elt, ast.Subscript) and isinstance(elt.value, ast.Name) \
             and elt.value.id == target.id and isinstance(elt.slice, ast.Constant) and isinstance(elt.slice.value, int):
         return elt.slice.value
+    if isinstance(target, ast.Name) and isinstance(elt, ast.Attribute) and isinstance(elt.value, ast.Name) \
+            and elt.value.id == target.id:
+        return elt.attr                           # field of a record: positional index through the record's class
     return None
 
 
@@ -375,8 +408,8 @@ def _component_fn(fn: ast.expr):
         if isinstance(body, ast.Tuple) and body.elts:
             body = body.elts[0]
         return _component_expr(ast.Name(id=fn.args.args[0].arg, ctx=ast.Load()), body)
-    if isinstance(fn, ast.Call) and call_name(fn) in ('itemgetter', 'operator.itemgetter') and fn.args \
-            and isinstance(fn.args[0], ast.Constant) and isinstance(fn.args[0].value, int):
+    if isinstance(fn, ast.Call) and call_name(fn) in ('itemgetter', 'operator.itemgetter', 'attrgetter', 'operator.attrgetter') \
+            and fn.args and isinstance(fn.args[0], ast.Constant) and isinstance(fn.args[0].value, (int, str)):
         return fn.args[0].value
     return None
 
@@ -433,30 +466,97 @@ def _argsort_of(prog, r: Ref):
     return None
 
 
+def _record_fields(prog, fi, func: ast.expr):
+    """field names, in positional order, of the record class (typing.NamedTuple / dataclass) that `func` names"""
+    if prog is None or not hasattr(fi, 'module') or not isinstance(func, ast.Name):
+        return None
+    ci = prog.resolve_name(fi.module, func.id)
+    node = getattr(ci, 'node', None)
+    if not isinstance(node, ast.ClassDef):
+        return None
+    is_record = any(b.split('.')[-1] == 'NamedTuple' for b in getattr(ci, 'base_exprs', [])) \
+        or any('dataclass' in norm(d) for d in node.decorator_list)
+    if not is_record:
+        return None
+    return [st.target.id for st in node.body if isinstance(st, ast.AnnAssign) and isinstance(st.target, ast.Name)]
+
+
+def _record_args(prog, fi, elt: ast.expr):
+    """(component expressions in positional order, field names | None) of a pair built by `elt`"""
+    if isinstance(elt, ast.Tuple) and len(elt.elts) == 2:
+        return list(elt.elts), None
+    if isinstance(elt, ast.Call) and not any(isinstance(a, ast.Starred) for a in elt.args):
+        fields = _record_fields(prog, fi, elt.func)
+        if fields and len(fields) == 2 and len(elt.args) + len(elt.keywords) == 2:
+            args = dict(zip(fields, elt.args))
+            for k in elt.keywords:
+                if k.arg not in fields or k.arg in args:
+                    return None
+                args[k.arg] = k.value
+            return [args[f] for f in fields], fields
+    return None
+
+
+def _comp_index(c, fields):
+    """positional index of a component named by position or by field name"""
+    if isinstance(c, bool):
+        return None
+    if isinstance(c, int):
+        return c
+    if isinstance(c, str) and fields and c in fields:
+        return fields.index(c)
+    return None
+
+
 def _pair_layout(prog, p: Ref):
-    """Component sources of an iterable of pairs: [c0, c1] with c = ('position', None) | ('value', Ref)
-    | ('shifted position', Ref of the start)."""
+    """Component sources of an iterable of pairs: ([c0, c1], field names | None) with
+    c = ('position', None) | ('value', Ref) | ('shifted position', Ref of the start)."""
     p = resolve_value(prog, p)
     e = p.e
-    if p.comp or not isinstance(e, ast.Call):
+    if p.comp:
+        return None
+    if isinstance(e, (ast.GeneratorExp, ast.ListComp)) and len(e.generators) == 1 and not e.generators[0].ifs:
+        # pairs (tuples or records) rebuilt from the components of another iterable of pairs
+        gen = e.generators[0]
+        inner = _pair_layout(prog, p.sub(gen.iter))
+        made = _record_args(prog, p.fi, e.elt)
+        if inner is None or made is None:
+            return None
+        lay = []
+        for a in made[0]:
+            i = _comp_index(_component_expr(gen.target, a), inner[1])
+            if i is None or not 0 <= i < len(inner[0]):
+                return None
+            lay.append(inner[0][i])
+        return lay, made[1]
+    if not isinstance(e, ast.Call):
         return None
     cn = call_name(e)
     if cn == 'enumerate' and 1 <= len(e.args) <= 2 and all(k.arg == 'start' for k in e.keywords):
         start = e.args[1] if len(e.args) == 2 else kwarg(e, 'start')
         pos = ('position', None) if start is None or (isinstance(start, ast.Constant) and start.value == 0) \
             else ('shifted position', p.sub(start))
-        return [pos, ('value', p.sub(e.args[0]))]
-    if cn == 'zip' and len(e.args) == 2 and not any(isinstance(a, ast.Starred) for a in e.args) \
-            and all(k.arg == 'strict' for k in e.keywords):
+        return [pos, ('value', p.sub(e.args[0]))], None
+    pair_args, fields = None, None
+    if cn == 'zip' and len(e.args) == 2 and all(k.arg == 'strict' for k in e.keywords):
+        pair_args = e.args
+    elif cn == 'map' and len(e.args) == 3 and not e.keywords:
+        fields = _record_fields(prog, p.fi, e.args[0])
+        if fields and len(fields) == 2:
+            pair_args = e.args[1:]
+        elif isinstance(e.args[0], ast.Lambda) and len(e.args[0].args.args) == 2 and isinstance(e.args[0].body, ast.Tuple) \
+                and [norm(x) for x in e.args[0].body.elts] == [a.arg for a in e.args[0].args.args]:
+            pair_args, fields = e.args[1:], None
+    if pair_args is not None and not any(isinstance(a, ast.Starred) for a in pair_args):
         out = []
-        for i, a in enumerate(e.args):
-            other = e.args[1 - i]
+        for i, a in enumerate(pair_args):
+            other = pair_args[1 - i]
             if isinstance(a, ast.Call) and call_name(a) == 'range' and len(a.args) == 1 and isinstance(a.args[0], ast.Call) \
                     and call_name(a.args[0]) == 'len' and len(a.args[0].args) == 1 and norm(a.args[0].args[0]) == norm(other):
                 out.append(('position', None))
             else:
                 out.append(('value', p.sub(a)))
-        return out
+        return out, fields
     return None
 
 
@@ -535,16 +635,16 @@ def rule_sorted_writers(ctx, m):
             if rev is not None and not (isinstance(rev, ast.Constant) and not rev.value):
                 ctx.ob('C08-R2', fi, f'{norm(scall)[:60]} reverse={norm(rev)}', False,
                        'descending table, but the reader does a left bisection of an ascending array', line=scall.lineno)
-            k = _component_fn(key)
-            layout = _pair_layout(prog, P)
-            if layout is None or k not in (0, 1):
-                ctx.undecided('C08-R2', fi, norm(scall)[:80], 'pair layout or sort key not recognised')
-            c_id, c_ix = p_id[1], p_ix[1]
+            lf = _pair_layout(prog, P)
+            layout, fields = lf if lf is not None else (None, None)
+            k, c_id, c_ix = (_comp_index(c, fields) for c in (_component_fn(key), p_id[1], p_ix[1]))
+            if layout is None or k not in (0, 1) or c_id not in (0, 1) or c_ix not in (0, 1):
+                ctx.undecided('C08-R2', fi, norm(scall)[:80], 'pair layout, sort key or projected component not recognised')
             ok = c_id == k
             ctx.ob('C08-R2', fi, f'flight_id table = component {c_id} of pairs sorted by component {k}', ok,
                    'the searched variable is the sort key, hence ascending' if ok else
                    'the variable the reader bisects on is not the one the pairs were sorted by', line=s_id.lineno)
-            id_col, pos_col, what_pos = layout[k], (layout[1 - k] if c_ix == 1 - k else None), f'component {c_ix}'
+            id_col, pos_col, what_pos = layout[c_id], (layout[c_ix] if c_ix != c_id else None), f'component {c_ix}'
         else:
             # permutation form: ids[order], order  /  ids[order], positions[order]   with order = argsort(ids)
             def permuted(r):
@@ -571,9 +671,9 @@ def rule_sorted_writers(ctx, m):
             what_pos = r_ix.text()[:50]
         keys = {k_ for k_, _ in variable_reads(id_col[1])} if id_col[0] == 'value' else set()
         ok = id_col[0] == 'value' and keys == {'flight_id'}
-        ctx.ob('C08-R2', fi, f'sort key = {_describe(id_col)[:60]}', ok,
-               'the sort key is the flight identifier' if ok else
-               f'pairs are sorted by something that is not the identifier (built from {sorted(keys) or id_col[0]})',
+        ctx.ob('C08-R2', fi, f'flight_id table holds {_describe(id_col)[:60]}', ok,
+               'the searched variable holds the flight identifiers' if ok else
+               f'what is stored as flight_id is not the identifier column (built from {sorted(keys) or id_col[0]})',
                line=s_id.lineno)
         if pos_col is None:
             ok = False
@@ -585,7 +685,7 @@ def rule_sorted_writers(ctx, m):
             ok = False
         ctx.ob('C08-R2', fi, f'trajectory_index table = {what_pos} = {_describe(pos_col) if pos_col else "?"}'[:110], ok,
                'the parallel variable carries the store position of the same pair' if ok else
-               'trajectory_index is not the position component of the same sorted pairs', line=s_ix.lineno)
+               'trajectory_index is not the position column of the same sorted pairs', line=s_ix.lineno)
 
 
 # ---------------------------------------------------------------------------
@@ -659,17 +759,20 @@ IN_MEMORY_FACTS = {('self.nc_linked', False), ('len(self._nc_files) != 0', False
 def path_facts(fn: ast.AST):
     """Forward dataflow of branch conditions: for each CFG node the set of (expr text, truth value) facts that hold
     on every normal path reaching it (`if`/`while` outcomes and `assert`s; a fact dies when a name or self attribute
-    it mentions is stored to).  Returns (cfg, {node id: facts}, {text: expr})."""
+    it mentions is stored to).  Returns (cfg, {node id: facts}, {text: expr}, facts_of(test, truth) -> facts,
+    {node id: {facts of one feasible path}} or None when there are too many paths)."""
     g = CFG(fn)
     exprs: dict[str, ast.expr] = {}
 
-    def facts_of(test, pol):
+    def facts_of(test, pol, depth=0):
         out = set()
         for e, p in conjuncts(test, pol):
-            if isinstance(e, ast.Name):
+            if isinstance(e, ast.Name) and depth < 4:
+                # a flag computed once from side-effect-free tests stands for those tests
                 v = single_def_value(fn, e.id)
-                if v is not None and not calls_in(v):
-                    e = v
+                if v is not None and all(call_name(c) in ('len', 'int', 'bool') for c in calls_in(v)):
+                    out |= facts_of(v, p, depth + 1)
+                    continue
             t = norm(e)
             exprs[t] = e
             out.add((t, p))
@@ -683,7 +786,6 @@ def path_facts(fn: ast.AST):
         for t, _, _ in stores_to(s_) if isinstance(s_, (ast.Assign, ast.AugAssign, ast.AnnAssign, ast.Delete)) else []:
             killed.add(norm(t.value) if isinstance(t, ast.Subscript) else norm(t))
         if killed:
-            import re
             st = frozenset(f for f in st if not any(re.search(r'(?<![\w.])' + re.escape(k) + r'(?![\w])', f[0]) for k in killed))
         if isinstance(s_, ast.Assert):
             st = st | frozenset(facts_of(s_.test, True))
@@ -696,7 +798,79 @@ def path_facts(fn: ast.AST):
         return st
 
     ins, _ = g.forward(frozenset(), transfer, lambda a, b: a & b, edge_ok=_normal, branch_transfer=branch)
-    return g, ins, exprs
+
+    # Path-sensitive refinement: the fact sets of every *feasible* simple normal path reaching each node.  A path is
+    # infeasible when a branch outcome contradicts a fact it carries; constants assigned to a local are facts too
+    # (`x = None` -> `x is None`; `found = True` -> `found`), and so is "x holds the result of call C" (`@is C x`),
+    # which lets a sentinel idiom (`pos = search(); if <miss>: pos = None; if pos is None: return None`) be followed.
+    loop_kills: dict[int, set[str]] = {}
+    for x in walk_no_nested(fn):
+        if isinstance(x, (ast.For, ast.AsyncFor, ast.While)):
+            loop_kills[id(x)] = {norm(t.value) if isinstance(t, ast.Subscript) else norm(t) for t, _, _ in stores_to(x)}
+
+    def kill(st, killed):
+        if not killed:
+            return st
+        return frozenset(f for f in st if not any(re.search(r'(?<![\w.])' + re.escape(k) + r'(?![\w])', f[0]) for k in killed))
+
+    def gen(s_):
+        out = set()
+        if isinstance(s_, ast.Assign) and len(s_.targets) == 1 and isinstance(s_.targets[0], ast.Name):
+            x, v = s_.targets[0].id, s_.value
+            while isinstance(v, ast.Call) and call_name(v) in _TRANSPARENT and len(v.args) == 1 and not v.keywords:
+                v = v.args[0]
+            if isinstance(v, ast.Constant) and v.value is None:
+                t = f'{x} is None'
+                exprs.setdefault(t, ast.parse(t, mode='eval').body)
+                out.add((t, True))
+            elif isinstance(v, ast.Constant) and isinstance(v.value, bool):
+                exprs.setdefault(x, ast.Name(id=x, ctx=ast.Load()))
+                out.add((x, v.value))
+            elif isinstance(v, ast.Call):
+                out.add((f'@is {id(v)} {x}', True))
+                t = f'{x} is None'
+                if call_name(v).split('.')[-1] in ('bisect_left', 'bisect_right', 'bisect', 'searchsorted', 'len'):
+                    exprs.setdefault(t, ast.parse(t, mode='eval').body)
+                    out.add((t, False))
+        return out
+
+    paths: dict[int, set] | None = {}
+    budget = [60000]
+
+    def walk(nid, st, seen):
+        budget[0] -= 1
+        if budget[0] < 0:
+            return
+        node = g.nodes[nid]
+        if node.stmt is not None and node.kind in ('iter', 'test') and id(node.stmt) in loop_kills:
+            st = kill(st, loop_kills[id(node.stmt)])
+        paths.setdefault(nid, set()).add(st)
+        out_st = st
+        if node.kind == 'stmt' and node.stmt is not None:
+            out_st = transfer(node, st) | frozenset(gen(node.stmt))
+        for b_, lab in g.succ[nid]:
+            if lab == 'e' or b_ in seen:
+                continue
+            s3 = out_st
+            if lab in ('t', 'f') and node.kind == 'test' and isinstance(node.stmt, (ast.If, ast.While)):
+                new = facts_of(node.stmt.test, lab == 't')
+                if any((t, not p_) in s3 for t, p_ in new):
+                    continue
+                s3 = s3 | frozenset(new)
+            walk(b_, s3, seen | {b_})
+
+    import sys
+    old = sys.getrecursionlimit()
+    sys.setrecursionlimit(max(old, 5000))
+    try:
+        walk(g.entry, frozenset(), {g.entry})
+    except RecursionError:
+        budget[0] = -1
+    finally:
+        sys.setrecursionlimit(old)
+    if budget[0] < 0:
+        paths = None
+    return g, ins, exprs, facts_of, paths
 
 
 def _alternatives(e: ast.expr | None):
@@ -706,7 +880,7 @@ def _alternatives(e: ast.expr | None):
     return [e]
 
 
-def _cache_search(prog, gf, ret: ast.Return, v: ast.expr, facts):
+def _cache_search(prog, gf, ret: ast.Return, v: ast.expr, facts, loop_facts=None):
     """Recognise `v` as "the element of an iterable whose attribute equals the key".
     -> dict(elt, target, iter, conds, missing) or None.  `missing` says what happens when nothing matches:
     'none' | 'falls through' | 'raises'."""
@@ -717,6 +891,10 @@ def _cache_search(prog, gf, ret: ast.Return, v: ast.expr, facts):
                    and v.id in {x.id for x in ast.walk(a.target) if isinstance(x, ast.Name)}), None)
         if lp is not None:
             conds = [(e, p) for t, pol, _ in guards_of(ret, stop=lp) for e, p in conjuncts(t, pol)]
+            if loop_facts is not None:
+                # what is known at the return and was not known on entry to the loop (guard clauses with `continue`)
+                have = {(norm(e), p) for e, p in conds}
+                conds += [ep for ep in loop_facts(lp) if (norm(ep[0]), ep[1]) not in have]
             return dict(elt=v, target=lp.target, iter=lp.iter, conds=conds, missing='falls through')
     r = resolve_value(prog, r0)
     e = r.e
@@ -770,7 +948,17 @@ def rule_reader(ctx, m):
     cls = m.cls('TrajectoryStore')
     gf = m.func('TrajectoryStore.get_flight')
     fid = gf.params[1]
-    g, ins, fexprs = path_facts(gf.node)
+    g, ins, fexprs, facts_of, paths = path_facts(gf.node)
+
+    def sets_at(nid):
+        """fact sets, one per feasible path reaching the node (the dataflow solution when paths were not enumerated)"""
+        if paths is None:
+            return [set(ins[nid])] if nid in ins else []
+        return [set(f) for f in paths.get(nid, ())]
+
+    def meet_at(nid):
+        ss = sets_at(nid)
+        return set.intersection(*ss) if ss else set()
 
     def is_fid(e):
         x = resolve_value(prog, Ref(e, gf))
@@ -790,9 +978,16 @@ def rule_reader(ctx, m):
            + (f' (through the copy kept in self.{a_src[1]})' if ok and a_src[1] else '') if ok else
            'the binary search does not run over the flight_id variable with the requested identifier', line=b.lineno)
 
-    def is_pos(e):
+    def is_pos(e, facts=()):
         x = resolve_value(prog, Ref(e, gf))
-        return x.e is b and not x.comp
+        if x.e is b and not x.comp:
+            return True
+        # a local assigned more than once: on this path it holds the search result
+        v = b
+        par = getattr(v, '_parent', None)
+        while isinstance(par, ast.Call) and call_name(par) in _TRANSPARENT and len(par.args) == 1:
+            v, par = par, getattr(par, '_parent', None)
+        return isinstance(e, ast.Name) and any((f'@is {id(c)} {e.id}', True) in facts for c in (b, v))
 
     def src_of(e):
         return index_source(prog, cls, Ref(e, gf))
@@ -811,7 +1006,7 @@ def rule_reader(ctx, m):
     IN_RANGE = {('Lt', True, True), ('GtE', True, False), ('Gt', False, True), ('LtE', False, False),
                 ('Eq', True, False), ('Eq', False, False), ('NotEq', True, True), ('NotEq', False, True)}
 
-    def confirmed(facts, slot_ok=is_pos):
+    def confirmed(facts):
         """(identifier equality established, bounds established) at a point where `facts` hold"""
         eq = bounds = False
         for t, p in facts:
@@ -821,10 +1016,10 @@ def rule_reader(ctx, m):
             l, r_, op = e.left, e.comparators[0], type(e.ops[0]).__name__
             for x, y, pos_left in ((l, r_, True), (r_, l, False)):
                 if op in ('Eq', 'NotEq') and (op == 'Eq') == p and is_fid(y) and isinstance(x, ast.Subscript) \
-                        and slot_ok(x.slice) and src_of(x.value) == a_src and a_src is not None:
+                        and is_pos(x.slice, facts) and src_of(x.value) == a_src and a_src is not None:
                     eq = True
                 la = length_of(y)
-                if la is not None and is_pos(x) and (op, pos_left, p) in IN_RANGE:
+                if la is not None and is_pos(x, facts) and (op, pos_left, p) in IN_RANGE:
                     s = src_of(la)
                     if s is not None and a_src is not None and s[1] == a_src[1]:
                         bounds = True
@@ -833,12 +1028,14 @@ def rule_reader(ctx, m):
     n_val = n_none = 0
     for rnode in [n for n in g.nodes if n.kind == 'stmt' and isinstance(n.stmt, ast.Return) and n.id in ins]:
         ret = rnode.stmt
+        if not sets_at(rnode.id):
+            continue                                  # no feasible path reaches this return
         for v in _alternatives(ret.value):
-            local = {(norm(e), p): e for t, pol, _ in (guards_of(v, stop=ret) if v is not None else [])
-                     for e, p in conjuncts(t, pol)}
-            for (t, p), e in local.items():
-                fexprs.setdefault(t, e)
-            facts = set(ins[rnode.id]) | set(local)
+            local = set()
+            for t, pol, _ in (guards_of(v, stop=ret) if v is not None else []):
+                local |= facts_of(t, pol)
+            facts = meet_at(rnode.id) | local
+            per_path = [fs | local for fs in sets_at(rnode.id)]
             in_memory = bool(facts & IN_MEMORY_FACTS)
             txt = f'return {norm(v) if v is not None else "None"}'
             if v is None or (isinstance(v, ast.Constant) and v.value is None):
@@ -846,7 +1043,11 @@ def rule_reader(ctx, m):
                 continue
             n_val += 1
             # ---- answer from the cache of an in-memory store --------------------------------------
-            cs = _cache_search(prog, gf, ret, v, facts)
+            def loop_facts(lp, here=rnode):
+                head = [i for i in g.nodes_of(lp) if g.nodes[i].kind == 'iter' and i in ins]
+                before = meet_at(head[0]) if head else set()
+                return [(fexprs[t], p) for t, p in sorted(meet_at(here.id) - before) if t in fexprs]
+            cs = _cache_search(prog, gf, ret, v, facts, loop_facts)
             if cs is not None:
                 it = resolve_value(prog, Ref(cs['iter'], gf)).e
                 how = norm(it)
@@ -861,6 +1062,20 @@ def rule_reader(ctx, m):
                          and any(is_fid(y) and isinstance(x, ast.Attribute) and x.attr == 'flight_id'
                                  and norm(x.value) == norm(cs['elt'])
                                  for x, y in ((c[0].left, c[0].comparators[0]), (c[0].comparators[0], c[0].left)))]
+                miss_is_none = cs['missing'] != 'falls through'
+                if not miss_is_none:
+                    # loop form: what does a miss run into after the loop?
+                    lp = next(a for a in ancestors(ret) if isinstance(a, (ast.For, ast.AsyncFor)))
+                    after = [i for i in g.nodes_of(lp) if g.nodes[i].kind == 'join']
+                    nxt = [g.nodes[j] for i in after for j, lab in g.succ[i] if lab != 'e']
+                    miss_is_none = any(n.kind == 'exit' or (isinstance(n.stmt, ast.Return) and n.kind == 'stmt' and (
+                        n.stmt.value is None or (isinstance(n.stmt.value, ast.Constant) and n.stmt.value.value is None)))
+                        for n in nxt)
+                if not in_memory and not miss_is_none and elt_ok and len(match) == 1 and len(cs['conds']) == 1:
+                    ctx.ob('C08-R2', gf, txt + ' (cache short-cut)', True,
+                           'a cached trajectory with the requested identifier is the answer; a miss goes on to the index',
+                           line=ret.lineno)
+                    continue
                 if not in_memory:
                     ctx.ob('C08-R2', gf, txt, False,
                            'a store with files attached is answered by scanning the trajectory cache, which holds only the '
@@ -898,7 +1113,8 @@ def rule_reader(ctx, m):
             ri = resolve_value(prog, Ref(item, gf))
             slot = ri.e.slice if isinstance(ri.e, ast.Subscript) and not ri.comp else None
             t_src = src_of(ri.e.value) if slot is not None else None
-            okr = slot is not None and is_pos(slot) and t_src is not None and t_src[0] == 'trajectory_index' \
+            okr = slot is not None and all(is_pos(slot, fs) for fs in per_path) and t_src is not None \
+                and t_src[0] == 'trajectory_index' \
                 and a_src is not None and t_src[1] == a_src[1]
             why_bad = 'the returned trajectory is not looked up through the parallel trajectory_index slot'
             if okr and side == 'right':
@@ -907,7 +1123,7 @@ def rule_reader(ctx, m):
                            'requested identifier')
             ctx.ob('C08-R2', gf, txt, okr,
                    'returns the trajectory at the parallel trajectory_index slot' if okr else why_bad, line=ret.lineno)
-            eq, bounds = confirmed(facts)
+            eq, bounds = (all(x) for x in zip(*[confirmed(fs) for fs in per_path]))
             if eq and not bounds:
                 # an out-of-range slot answered by catching IndexError around the comparison
                 for t, p in facts:
@@ -925,8 +1141,8 @@ def rule_reader(ctx, m):
             if in_memory:
                 ctx.ob('C08-R2', gf, txt + ' on an in-memory store', False,
                        'an in-memory store has no index group: it must answer from its cache', line=ret.lineno)
-    ctx.floor('C08-R2/get_flight', n_val, 2, 'value-returning answers of get_flight (index look-up and in-memory search)')
-    ctx.ob('C08-R2', gf, 'not-found answers', n_none >= 1 or n_val >= 2, f'{n_none} `return None` path(s)', nontrivial=False)
+    # (that an in-memory store is answered at all is R5's business: without that branch the index group is dereferenced)
+    ctx.floor('C08-R2/get_flight', n_val, 1, 'value-returning answers of get_flight')
 
 
 def rule_sorted(ctx, m):
@@ -993,12 +1209,32 @@ def index_copies(prog, methods: dict):
     return out
 
 
+def lookup_copies(prog, methods: dict, lookups=('get_flight',)):
+    """index_copies restricted to the attributes a look-up reads (in the look-up method or a method it calls on self)."""
+    copies = index_copies(prog, methods)
+    reach, work = set(), [n for n in lookups if n in methods]
+    if not work:            # no look-up method by that name: every method that runs a binary search
+        work = [k for k, fi in methods.items() if any(_search_call(c) for c in calls_in(fi.node))]
+    while work:
+        k = work.pop()
+        if k in reach:
+            continue
+        reach.add(k)
+        for c in calls_in(methods[k].node):
+            cn = call_name(c)
+            if cn.startswith('self.') and cn.count('.') == 1 and cn[5:] in methods:
+                work.append(cn[5:])
+    read = {x.attr for k in reach for x in walk_no_nested(methods[k].node)
+            if isinstance(x, ast.Attribute) and isinstance(x.ctx, ast.Load) and isinstance(x.value, ast.Name) and x.value.id == 'self'}
+    return {a: v for a, v in copies.items() if a in read}
+
+
 def freshness(prog, methods: dict):
     """For every copy of the index kept in an attribute: is it dropped or renewed wherever the index goes stale
     (`self.index_stale = True`) or wherever the index variables are rewritten?  One of the two is necessary: a
     look-up reads the copy, and nothing else tells the copy that trajectories were added since it was made.
     -> [(attr, ok, covered group, fills, uncovered sites [(fi, stmt)], detail)]"""
-    copies = index_copies(prog, methods)
+    copies = lookup_copies(prog, methods)
     stale_sites, rewrite_sites = [], []
     for fi in methods.values():
         if fi.node.name == '__init__':
@@ -1070,12 +1306,14 @@ class S:
         self.index_group.variables['flight_id'][:] = [i for _, i in p]
         self.index_group.variables['trajectory_index'][:] = [j for j, _ in p]
         self.index_stale = False
-    def get(self, x):
+    def get_flight(self, x):
         if self.index_stale:
             self._reindex()
         if self._tab is None or self.index_stale:
             self._tab = (self.index_group.variables['flight_id'][:], self.index_group.variables['trajectory_index'][:])
-        return self._tab
+        ids, idxs = self._tab
+        i = bisect.bisect_left(ids, x)
+        return self[idxs[i]] if i < len(ids) and ids[i] == x else None
     def _reindex_and_drop(self):
         self.index_group.variables['flight_id'][:] = []
         self._tab = None
@@ -1256,7 +1494,6 @@ def rule_linked(ctx, m, rule='C08-R5', entries=None):
     established that files are attached: a branch on `self.nc_linked` / `self._file_creation_pending`, a loop over
     `self._nc` / `self._nc_files`, or a call that attaches files.  Decided on the CFG of each method with the
     certifying edges removed, propagated over `self.<method>()` calls from the public entry points."""
-    import re
     cls = m.cls('TrajectoryStore')
     meths = {k: v for k, v in cls.methods.items()}
 
